@@ -129,19 +129,38 @@ def cache_variants(rng, opts, quick):
     vs.append(dict(kind="map-append", data=rng.choice([" ", "\n", "<!-- x -->"])))
     for n in ([0, 3, 50, 75, 76, 400] if quick else [0, 1, 3, 4, 5, 50, 67, 68, 70, 75, 76, 77, 200, 400, 5000]):
         vs.append(dict(kind="truncate", len=n))
-    # change each option on its own (explicitly given options; passing a default explicitly also changes the digest)
-    changes = {"tolerance": full["tolerance"] + 0.01, "fill_gaps": not full["fill_gaps"],
-               "fill_intersections": not full["fill_intersections"], "elide_short_roads": not full["elide_short_roads"],
-               "ref_points": full["ref_points"] + 1}
-    for k, v in changes.items():
-        o = dict(opts)
-        o[k] = v
-        vs.append(dict(kind="option", opts=o, changed=k))
-    if opts:
-        k = sorted(opts)[0]
+    # change each option on its own to a value of EVERY value class (False / 0 / 0.0 / None / '' as well as truthy values;
+    # explicitly given options: passing a default explicitly also changes the digest) against the cache written under `opts`
+    pools = {"tolerance": [0, 0.0, None, DEFAULTS["tolerance"], full["tolerance"] + 0.01, 1e-9, 1],
+             "fill_gaps": [False, True, None, 0, 1, ""],
+             "fill_intersections": [False, True, None, 0, 1, ""],
+             "elide_short_roads": [False, True, None, 0, 1, ""],
+             "ref_points": [0, None, DEFAULTS["ref_points"], full["ref_points"] + 1, 1]}
+    absent = object()
+    for k, pool in pools.items():
+        cur = opts.get(k, absent)
+        cands = [v for v in pool if cur is absent or type(v) is not type(cur) or v != cur]
+        falsy = [v for v in cands if not v]
+        truthy = [v for v in cands if v]
+        pick = cands if not quick else [rng.choice(falsy)] + [rng.choice(truthy)] + [rng.choice(cands)]
+        seen = []
+        for v in pick:
+            if any(type(v) is type(w) and v == w for w in seen):
+                continue
+            seen.append(v)
+            o = dict(opts)
+            o[k] = v
+            vs.append(dict(kind="option", opts=o, changed=k, value_class=("falsy" if not v else "truthy") + ":" + type(v).__name__))
+    for k in sorted(opts):   # an explicitly given option removed again (also when its value was falsy)
         o = dict(opts)
         del o[k]
-        vs.append(dict(kind="option", opts=o, changed="-" + k))
+        vs.append(dict(kind="option", opts=o, changed="-" + k, value_class=("falsy" if not opts[k] else "truthy") + ":" + type(opts[k]).__name__))
+    # same printed value, different type: {"k": 1} vs {"k": "1"} (the framing encodes str(value) only)
+    for k in sorted(opts):
+        if not isinstance(opts[k], str):
+            o = dict(opts)
+            o[k] = str(opts[k])
+            vs.append(dict(kind="option-type", opts=o, changed=k, value_class="str-of-" + type(opts[k]).__name__))
     return vs
 
 
